@@ -213,6 +213,52 @@ def from_jsonable(x):
     return x
 
 
+
+def copy_inputs(x):
+    """deep copy of the containers and arrays of an input structure (scalars / Sym objects are shared)"""
+    if isinstance(x, np.ndarray):
+        return x.copy()
+    if isinstance(x, list):
+        return [copy_inputs(v) for v in x]
+    if isinstance(x, tuple):
+        return tuple(copy_inputs(v) for v in x)
+    if isinstance(x, dict):
+        return {k: copy_inputs(v) for k, v in x.items()}
+    return x
+
+
+def inputs_changed(work, pristine, path="inputs"):
+    """name of the first argument the call modified in place, or None"""
+    if isinstance(pristine, np.ndarray):
+        if not isinstance(work, np.ndarray) or work.shape != pristine.shape or work.dtype != pristine.dtype:
+            return path
+        if pristine.dtype == object:
+            for a, b in zip(work.flat, pristine.flat):
+                if a is b:
+                    continue
+                if isinstance(a, Sym) and isinstance(b, Sym) and a.key() == b.key():
+                    continue
+                if not isinstance(a, (Sym, SymBool, Elem)) and not isinstance(b, (Sym, SymBool, Elem)) and a == b:
+                    continue
+                return path
+            return None
+        return None if np.array_equal(work, pristine, equal_nan=True) else path
+    if isinstance(pristine, (list, tuple)):
+        if not isinstance(work, (list, tuple)) or len(work) != len(pristine):
+            return path
+        for k, (a, b) in enumerate(zip(work, pristine)):
+            r = inputs_changed(a, b, f"{path}[{k}]")
+            if r:
+                return r
+        return None
+    if isinstance(pristine, dict):
+        for k in pristine:
+            r = inputs_changed(work.get(k), pristine[k], f"{path}[{k!r}]")
+            if r:
+                return r
+        return None
+    return None
+
 # ----------------------------------------------------------------------------------------------
 @dataclass
 class Obligation:
@@ -242,6 +288,7 @@ class Obligation:
     wall_cap_s: float = 600.0
     abs_fork: bool = False    # |x| of a real symbolic x forks on the sign instead of creating a symbol
     weight: int = 1
+    mutable_inputs: bool = False   # True only if the function is documented to modify its arguments in place
     witness: Callable[[], list] | None = None   # concrete inputs satisfying the precondition, tried during replay
     exact_sqrt: bool = False  # np.sqrt of a plain non-square rational inside toqito returns the algebraic number (symbol s, s*s -> x)
     contracts: tuple = ()     # kernel contracts to assert at the kernel call ('eigh', 'svd', ...)
@@ -304,7 +351,12 @@ def run_obligation(ob: Obligation, seed=0):
             if ob.assume:
                 for a in ob.assume(inputs):
                     ctx.assume.append(a)
-            paths, complete = explore(ctx, lambda: ob.call(inputs), max_paths=ob.max_paths,
+            def _one_path():
+                work = copy_inputs(inputs)
+                res = ob.call(work)
+                ch = None if ob.mutable_inputs else inputs_changed(work, inputs)
+                return _Mutated(ch, res) if ch else res
+            paths, complete = explore(ctx, _one_path, max_paths=ob.max_paths,
                                       feas_timeout_ms=ob.feas_timeout_ms)
             rec["paths"] = len(paths)
             if not complete:
@@ -330,11 +382,15 @@ def run_obligation(ob: Obligation, seed=0):
                 else:
                     if expected is None and ob.oracle is not None:
                         expected = ob.oracle(inputs)
-                    if first_normal is None:
-                        first_normal = p
-                    cond = post(p.result, expected, inputs)
-                    cond = SymBool(cond) if not isinstance(cond, SymBool) else cond
-                    what = "postcondition"
+                    if isinstance(p.result, _Mutated):
+                        cond = SymBool(False)
+                        what = f"the call modified its argument {p.result.which} in place"
+                    else:
+                        if first_normal is None:
+                            first_normal = p
+                        cond = post(p.result, expected, inputs)
+                        cond = SymBool(cond) if not isinstance(cond, SymBool) else cond
+                        what = "postcondition"
                 goal = p.pc + [as_z3(~cond)]
                 rec["smt_assertions"] = max(rec["smt_assertions"], len(goal) + len(ctx.side) + len(ctx.assume))
                 r, model = ctx.check(goal, timeout_ms=ob.timeout_ms, cross=True)
@@ -445,6 +501,11 @@ def run_obligation(ob: Obligation, seed=0):
     return json.loads(json.dumps(rec, default=str))
 
 
+class _Mutated:
+    def __init__(self, which, result):
+        self.which, self.result = which, result
+
+
 def numeric_run(ob, ninputs):
     """the real function on plain numbers, no proxies; returns (result, exc)"""
     try:
@@ -458,7 +519,14 @@ def numeric_run(ob, ninputs):
 def numeric_verdict(ob, ninputs):
     """True = property holds at this concrete input; False = violated; also returns details"""
     post = ob.post or _default_post
+    pristine = ninputs
+    ninputs = copy_inputs(pristine)
     res, exc = numeric_run(ob, ninputs)
+    if not ob.mutable_inputs:
+        ch = inputs_changed(ninputs, pristine)
+        if ch:
+            return False, {"mutated_argument": ch, "note": "the call modified its argument in place"}
+    ninputs = pristine
     if exc is not None:
         if ob.exc_post is None:
             return False, {"exception": f"{type(exc).__name__}: {exc}"}
@@ -515,7 +583,7 @@ def translator_validation(ob, seed):
         with use_ctx(ctx), symbolic_mode(objzeros=ob.objzeros, rng=ob.rng, extra=ob.extra_patch):
             b = Builder(ctx, concrete_seed=seed + 1)
             inputs = ob.build(b)
-            paths, complete = explore(ctx, lambda: ob.call(inputs), max_paths=4)
+            paths, complete = explore(ctx, lambda: ob.call(copy_inputs(inputs)), max_paths=4)
             p = paths[0]
             vals = model_values(ctx, None)
             sres = to_numeric(p.result, vals, {}) if p.exc is None else None
